@@ -5,7 +5,35 @@
 #include "c20_core.hh"
 #include "c20_sig.hh"
 
+#include <dlfcn.h>
+
+namespace c20 { static std::vector<std::string> *g_nonce_log = nullptr; }
+// observation point for AEAD nonces: the harness executable's definition takes precedence over libgcrypt's
+// for the statically linked library code (same mechanism as interpose.cc); pass-through
+extern "C" gcry_error_t gcry_cipher_setiv(gcry_cipher_hd_t h, const void *iv, size_t ivlen) {
+	typedef gcry_error_t (*fn_t)(gcry_cipher_hd_t, const void *, size_t);
+	static fn_t real = (fn_t)dlsym(RTLD_NEXT, "gcry_cipher_setiv");
+	if (c20::g_nonce_log && iv && ivlen) c20::g_nonce_log->push_back(std::string((const char *)iv, ivlen));
+	return real(h, iv, ivlen);
+}
+
 namespace c20 {
+
+// every nonce a single AEAD encryption/decryption hands to the cipher must be used once (EAX/OCB lose
+// confidentiality and authenticity under nonce reuse); also compared with the draft's formula IV xor index
+inline void check_nonces(const std::string &what, const std::vector<std::string> &log, const Oct &iv, const std::string &cj) {
+	std::set<std::string> seen; bool dup = false; size_t first_dup = 0;
+	for (size_t i = 0; i < log.size(); i++) { if (!seen.insert(log[i]).second && !dup) { dup = true; first_dup = i; } }
+	count("aead_nonce/" + what + "/messages"); count("aead_nonce/" + what + "/nonces", (long long)log.size());
+	if (dup) {
+		std::vector<std::string> hx; for (auto &n : log) hx.push_back(hex((const unsigned char *)n.data(), n.size()));
+		viol("C20/aead/nonce-reused-within-message", "the library used the same AEAD nonce for two chunks of one message (" + what + "), first repetition at step " + std::to_string(first_dup),
+			J().arr("nonces_in_order", hx).kv("starting_iv", hex(iv)).raw("ctx", cj).str());
+	}
+	bool spec = true;
+	for (size_t i = 0; i < log.size() && spec; i++) { std::string n((const char *)iv.data(), iv.size()); for (int b = 0; b < 8; b++) n[n.size() - 1 - b] ^= (char)((i >> (8 * b)) & 0xFF); if (n != log[i]) spec = false; }
+	count(std::string("aead_nonce/") + what + (spec ? "/as-in-draft" : "/differs-from-draft"));
+}
 
 // ------------------------------------------------------------------ recipients
 struct Recipient {      // public and private subkey objects of the library for one key
@@ -206,8 +234,11 @@ inline void run_enc(long &kc) {
 		else if (built && kind == "cfb-foreign") built = make_seipd_foreign(c.skalgo, plain, r, seskey, datapkt, err);
 		else if (built && kind == "aead") {
 			Oct ad, iv, enc; ad.push_back(0xD4); ad.push_back(1); ad.push_back(c.skalgo); ad.push_back(c.aead); ad.push_back(c.chunk); for (int i = 0; i < 8; i++) ad.push_back(0);
+			std::vector<std::string> nlog; g_nonce_log = &nlog;
 			gcry_error_t rc = PGP::SymmetricEncryptAEAD(plain, seskey, (tmcg_openpgp_skalgo_t)c.skalgo, (tmcg_openpgp_aeadalgo_t)c.aead, c.chunk, ad, 0, iv, enc);
+			g_nonce_log = nullptr;
 			built = !rc; if (rc) err = gcry_strerror(rc);
+			if (built) { check_nonces("encrypt", nlog, iv, d.str()); st.evals++; }
 			if (built) PGP::PacketAeadEncode((tmcg_openpgp_skalgo_t)c.skalgo, (tmcg_openpgp_aeadalgo_t)c.aead, c.chunk, iv, enc, datapkt);
 		}
 		// session key transport
@@ -229,7 +260,10 @@ inline void run_enc(long &kc) {
 		if (c.aead) { count(std::string("art_aead/") + aeadname(c.aead) + "/chunk_octet_" + std::to_string(c.chunk)); }
 		// expected plaintext after Decrypt: SEIPD keeps the MDC packet at the end
 		Oct expect = plain; if (kind == "seipd") app(expect, mdcpkt);
+		std::vector<std::string> dlog; if (kind == "aead" && oc.esk == 0) g_nonce_log = &dlog;
 		MsgRes p = open_message(msgbytes, oc); st.evals++;
+		g_nonce_log = nullptr;
+		if (kind == "aead" && oc.esk == 0 && p.decrypted) { const Region *ivr = L.find("aead.iv"); if (ivr) check_nonces("decrypt", dlog, sub(msgbytes, ivr->off, ivr->len), cj); }
 		if (kind == "sed") {
 			st.reached = p.parsed; count("sed/refusal-checked");
 			if (p.decrypted) viol("C20/sed/accepted", "Decrypt accepted a Symmetrically Encrypted Data packet (no integrity protection)", cj);
@@ -283,7 +317,7 @@ inline void run_enc(long &kc) {
 					// independent reading of the chunk format (observation, see notes): recorded, not judged
 					{ Oct key(seskey.begin(), seskey.end()), iv(body.begin() + 4, body.begin() + 4 + ivl), out;
 					  bool ro = ref_aead_decrypt(ct, key, c.skalgo, c.aead, c.chunk, iv, out) && out == plain;
-					  count(std::string("aead_ref/") + (nch >= 3 ? "3+chunks" : "1-2chunks") + (ro ? "/agrees" : "/disagrees")); }
+					  count(std::string("aead_ref/") + (nch >= 3 ? "3+chunks" : nch == 2 ? "2chunks" : "1chunk") + (ro ? "/agrees" : "/disagrees")); }
 				} else {
 					Oct enc(body.begin() + 1, body.end());
 					{ Oct o(body); o.resize(o.size() - 22); structural(kind, "mdc-packet-dropped", rebuild(18, o), oc, cj, st); }
